@@ -63,6 +63,63 @@ theorem C31_granted (n : Node) (d : DV) :
     have ha := (C31_access_iff n fWrite).2 h
     simp [nsSetAttribute, ha, nodeSet]
 
+/-- how the two levels combine — there is no precedence of one over the other as far as the
+    verdict goes: access is granted iff BOTH present levels grant it; UserAccessLevel is merely
+    looked at first, which only matters for which of two faults shows (a denial by
+    UserAccessLevel hides a nil Variant in AccessLevel) -/
+theorem C31_levels_combine (n : Node) (f : Nat) :
+    (access n f = .allow ↔
+      accessSlot (n.get aUserAccessLevel) f = .allow ∧ accessSlot (n.get aAccessLevel) f = .allow) ∧
+    (accessSlot (n.get aUserAccessLevel) f = .deny → access n f = .deny) ∧
+    (accessSlot (n.get aUserAccessLevel) f = .panic → access n f = .panic) ∧
+    (accessSlot (n.get aUserAccessLevel) f = .allow → access n f = accessSlot (n.get aAccessLevel) f) := by
+  unfold access
+  cases h : accessSlot (n.get aUserAccessLevel) f <;> simp
+
+/-- the frame of the property, explicit: the code applies the two levels to EVERY attribute (more
+    than Part 3 asks: there they govern the Value attribute only), with the same verdict for all
+    attributes; and an operation on another attribute, granted or not, neither reveals nor
+    changes the value: the answer does not depend on the value slot and the value slot is kept -/
+theorem C31_nonvalue_frame (n : Node) (attr : Nat) (d v' : DV) (hne : attr ≠ aValue) :
+    -- same verdict for every attribute
+    ((nsAttribute n attr).1 = .status .badUserAccessDenied ↔ (nsAttribute n aValue).1 = .status .badUserAccessDenied) ∧
+    ((nsSetAttribute n attr d).1 = (nsSetAttribute n aValue d).1) ∧
+    -- the value is not revealed …
+    (nsAttribute { n with val := v' } attr).1 = (nsAttribute n attr).1 ∧
+    -- … and not touched
+    (nsAttribute n attr).2.val = n.val ∧ (nsSetAttribute n attr d).2.val = n.val := by
+  have hacc : ∀ f, access { n with val := v' } f = access n f := fun f => rfl
+  refine ⟨?_, ?_, ?_, ?_, ?_⟩
+  · unfold nsAttribute
+    cases ha : access n fRead <;> simp only []
+    · -- allowed: neither answer is a denial
+      constructor
+      · intro h
+        exfalso
+        revert h
+        repeat' split
+        all_goals simp
+      · intro h
+        exfalso
+        revert h
+        simp only [aValue, aNodeID, aEventNotifier, aNodeClass,
+          show (13:Nat) ≠ 1 by decide, show (13:Nat) ≠ 12 by decide, show (13:Nat) ≠ 2 by decide, ↓reduceIte]
+        cases n.val <;> simp
+    all_goals (try simp)
+  · unfold nsSetAttribute
+    cases access n fWrite <;> rfl
+  · unfold nsAttribute
+    rw [hacc fRead]
+    cases access n fRead <;> simp only []
+    simp only [hne, ↓reduceIte, Node.get]
+    repeat' split
+    all_goals rfl
+  · have := core_read n attr
+    simp only [core, Prod.mk.injEq] at this
+    exact this.1
+  · unfold nsSetAttribute
+    cases access n fWrite <;> simp [nodeSet, hne]
+
 /-- the panic outcome needs a DataValue without a Variant in one of the two
     access attributes -/
 theorem C31_panic_only_nil_variant (n : Node) (f : Nat) (h : access n f = .panic) :
